@@ -99,12 +99,13 @@ def body_kernel(case):
     b, a, le = case["event"]
     e = energy(le)
     dtype = case["dtype"]
-    k = kernel(525.0, dtype)
+    det = case.get("det", 525.0)
+    k = kernel(det, dtype)
     zs = _segments(k, b, a, e)
     n = len(zs)
     require(n >= 3, f"fewer than three simulated segments for an event in the domain (beta {b}, alt {a})")
     hc = _cloud_altitude(zs, case["mode"], case["t"], case["j"])
-    what = f"[{dtype}] event beta={math.degrees(b)!r} deg alt={a!r} km E={e!r}, cloud top {hc!r} km ({case['mode']}; first segment {zs[0]!r}, penultimate {zs[-2]!r}, last {zs[-1]!r})"
+    what = f"[{dtype}, detector {det} km] event beta={math.degrees(b)!r} deg alt={a!r} km E={e!r}, cloud top {hc!r} km ({case['mode']}; first segment {zs[0]!r}, penultimate {zs[-2]!r}, last {zs[-1]!r})"
     seen = []
 
     def cloudf(lat, lon):
@@ -119,6 +120,8 @@ def body_kernel(case):
         d, ang = float(d), float(ang)
     require(len(seen) == 1 and seen[0] == (0.25, -1.5), f"the cloud model was queried with {seen}, expected once with the event's own (lat, long)")
     labels = {dtype}
+    if det < 65.0:
+        labels.add("detector_inside_atmosphere")
     if hc <= zs[0]:
         require(d == d0 and ang == a0, f"{what}: cloud below the first segment changes the result: {(d, ang)!r} vs cloud-free {(d0, a0)!r}")
         labels.add("below_first")
@@ -132,7 +135,7 @@ def body_kernel(case):
         below = zs[zs < hc]
         above = zs[zs >= hc]
         hc_ref = 0.5 * (float(below.max()) + float(above.min()))
-        dr, ar = ref.shower(b, a, e, cloud_top=hc_ref, round32=(dtype == "float32"))
+        dr, ar = ref.shower(b, a, e, det_alt=det, cloud_top=hc_ref, round32=(dtype == "float32"))
         if dtype == "float32" and hc > HIGH_CLOUD_KM and known_active(PROPERTY_ID, KF_HIGH_CLOUD):
             # known finding (see known_findings.json): excluded by construction from the float32 model comparison,
             # counted; the float64 comparison and the exact relations still run for these cloud tops
@@ -296,6 +299,8 @@ SUBCHECKS = [
                 "j": st.integers(0, 100000),
                 "dh": st.one_of(st.floats(1e-3, 5.0), st.sampled_from([1e-9, 0.05])),
                 "dtype": st.sampled_from(["float32", "float32", "float64"]),
+                # incl. detectors BELOW some cloud tops (a balloon under an infinitely high cloud still sees nothing)
+                "det": st.sampled_from([525.0, 525.0, 33.0, 25.0, 2000.0, 400.0]),
             }
         ),
         body_kernel,
